@@ -309,6 +309,36 @@ pub open spec fn find_post(etype: int, name: ElementName, version: u32, r: Optio
     }
 }
 
+// The lookup as a function: depth-first, first hit in listing order (this is what makes find_sub_element a *function* of its arguments)
+pub open spec fn find_from(etype: int, i: int, name: ElementName, v: u32) -> Option<(u16, Seq<usize>)>
+    decreases grank(etype), sub_of(etype).len() - i
+    when wf_tables() && 0 <= etype < n_dt() && 0 <= i
+    via find_from_decreases
+{
+    if i >= sub_of(etype).len() { None }
+    else {
+        match sub_of(etype)[i] {
+            SubElement::Element(d) => if t_el(d as int).name == name && v & t_ver(t_dt(etype).sub_element_ver + i) != 0 { Some((d, seq![i as usize])) } else { find_from(etype, i + 1, name, v) },
+            SubElement::Group(g) => match find_from(g as int, 0, name, v) { Some((d, p)) => Some((d, seq![i as usize] + p)), None => find_from(etype, i + 1, name, v) },
+        }
+    }
+}
+#[via_fn]
+proof fn find_from_decreases(etype: int, i: int, name: ElementName, v: u32) {
+    if i < sub_of(etype).len() {
+        match sub_of(etype)[i] {
+            SubElement::Group(g) => { assert(sub_of(etype)[i] == t_sub(t_dt(etype).sub_elements.0 + i)); }
+            _ => {}
+        }
+    }
+}
+pub open spec fn find_is(etype: int, name: ElementName, v: u32, r: Option<(ElementType, Vec<usize>)>) -> bool {
+    match r {
+        Some((et, idx)) => find_from(etype, 0, name, v) == Some((et.def, idx@)) && et == et_of(et.def),
+        None => find_from(etype, 0, name, v) is None,
+    }
+}
+
 // C18: "every sub-element that the specification lists for an element type in some version is found by name lookup
 // in that version with a type listed for it and a version mask containing that version"
 pub proof fn lemma_listed_is_found(etype: int, p: Seq<usize>, v: u32, r: Option<(ElementType, Vec<usize>)>)
@@ -563,15 +593,22 @@ def fns(sz):
 }''')]),
         FnSpec('get_sub_element_version_mask', F, impl=IMPL_ET, ret='r', requires=[T, 'idx_ok(self.typ as int, element_indices@)'],
                ensures=['r == (match resolve_any(self.typ as int, element_indices@) { Some((s, m)) => Some(m), None => None })']),
-        FnSpec('find_sub_element', F, impl=IMPL_ET, ret='r', requires=[T], ensures=['find_post(self.typ as int, target_name, version, r)']),
+        FnSpec('find_sub_element', F, impl=IMPL_ET, ret='r', requires=[T], ensures=['find_post(self.typ as int, target_name, version, r)', 'find_is(self.typ as int, target_name, version, r)'],
+               proofs=[dict(at='body_start', text='proof { axiom_tables(); }')]),
         FnSpec('find_sub_element_internal', F, impl=IMPL_ET, ret='r', body_sub=R_LOCAL,
-               requires=['etype < n_dt()'], ensures=['find_post(etype as int, target_name, version, r)'], decreases='grank(etype as int)',
+               requires=['etype < n_dt()'], ensures=['find_post(etype as int, target_name, version, r)', 'find_is(etype as int, target_name, version, r)'], decreases='grank(etype as int)',
                loops={0: dict(invariant=['vx_i <= spec.len()', 'spec@ =~= sub_of(etype as int)', 'etype < n_dt()', 'wf_tables()',
-                                         'forall|p: Seq<usize>| p.len() > 0 && p[0] < vx_i ==> !hit(etype as int, p, target_name, version)'],
+                                         'forall|p: Seq<usize>| p.len() > 0 && p[0] < vx_i ==> !hit(etype as int, p, target_name, version)',
+                                         'find_from(etype as int, 0, target_name, version) == find_from(etype as int, vx_i as int, target_name, version)'],
                               decreases='spec.len() - vx_i')},
                proofs=[dict(at='body_start', text='proof { axiom_tables(); }'),
+                       dict(before=r'^\s*return Some\(\(ElementType::new\(\*definiton_id\), vec!\[cur_pos\]\)\);', text='''proof {
+    assert(sub_of(etype as int)[cur_pos as int] == SubElement::Element(*definiton_id));
+    assert(find_from(etype as int, cur_pos as int, target_name, version) == Some((*definiton_id, seq![cur_pos])));
+    assert(forall|w: Vec<usize>| w@.len() == 1 && w@[0] == cur_pos ==> w@ =~= seq![cur_pos]);
+}'''),
                        dict(before=r'^\s*indices\.insert\(0, cur_pos\);', text='let ghost old_idx = indices@;'),
-                       dict(after=r'indices\.insert\(0, cur_pos\);', text='proof { assert(indices@.subrange(1, indices@.len() as int) =~= old_idx); }'),
+                       dict(after=r'indices\.insert\(0, cur_pos\);', text='proof { assert(indices@.subrange(1, indices@.len() as int) =~= old_idx); assert(indices@ =~= seq![cur_pos] + old_idx); }'),
                        dict(after=r'return Some\(\(ElementType::new\(\*definiton_id\), vec!\[cur_pos\]\)\);\s*\n\s*\}', text='''proof {
     assert forall|p: Seq<usize>| p.len() > 0 && p[0] == cur_pos implies !hit(etype as int, p, target_name, version) by {}
 }'''),
